@@ -133,16 +133,32 @@ def _drive(args):
                 for row in rows[:2]:
                     row.pop('DE48', None)
                     row['PDS0165'] = inner
-        text = to_csv(rows, cols)
+        site_extra = via_cli and tid % 15 == 5 and tid % 10 != 5
+        cols_used = cols
+        if site_extra:
+            # a site configuration that defines an element the packaged one lacks (DE11), used in every record
+            for i, row in enumerate(rows):
+                row['DE11'] = '%06d' % (i + 1)
+            cols_used = cols[:3] + ['DE11'] + cols[3:]
+        text = to_csv(rows, cols_used)
         res = {'tid': tid, 'enc': enc, 'blocked': blocked, 'kind': 'ok', 'rin': [prow(x) for x in rows], 'rout': [],
                '_desc': '%d rows, %s, %s%s' % (n, enc, '1014' if blocked else 'vbs', ', via cli_run on real files' if via_cli else ''),
                '_raw': None}
         try:
-            with drv.Watchdog(60.0), contextlib.redirect_stdout(io.StringIO()):
+            with drv.Env('csv', tid, n, enc), drv.Watchdog(60.0), contextlib.redirect_stdout(io.StringIO()):
                 if via_cli:
                     p = os.path.join(wd, 'c20-%d-%d.csv' % (os.getpid(), tid))
-                    open(p, 'w', newline='').write(text)
+                    drv.spit(p, text, 'w', newline='')
                     kwcfg = {}
+                    if site_extra:
+                        import copy
+                        import json
+                        cfg2 = copy.deepcopy(cfg)
+                        cfg2['bit_config']['11'] = {'field_name': 'System trace audit number', 'field_type': 'FIXED', 'field_length': 6}
+                        cfg2['output_data_elements'] = cols_used
+                        with open(p + '.json', 'w') as fh:
+                            json.dump(cfg2, fh)
+                        kwcfg = {'config_file': p + '.json'}
                     if tid % 15 == 0:
                         # a site configuration file with the packaged content, keys in json sort_keys order
                         import json
@@ -151,20 +167,20 @@ def _drive(args):
                     if tid % 10 == 5:
                         # CSV text encoding given, IPM encoding left to its default (latin_1) on both commands
                         enc = res['enc'] = 'latin_1'
-                        open(p, 'w', newline='', encoding='utf-8').write(text)
+                        drv.spit(p, text, 'w', newline='', encoding='utf-8')
                         mci_csv_to_ipm.cli_run(in_filename=p, out_filename=p + '.ipm', in_encoding='utf-8',
                                                no1014blocking=not blocked)
-                        ipm = open(p + '.ipm', 'rb').read()
+                        ipm = drv.slurp(p + '.ipm')
                         rc = mci_ipm_to_csv.cli_run(in_filename=p + '.ipm', out_filename=p + '.out.csv', out_encoding='utf-8',
                                                     no1014blocking=not blocked)
                     else:
                         mci_csv_to_ipm.cli_run(in_filename=p, out_filename=p + '.ipm', out_encoding=enc, no1014blocking=not blocked, **kwcfg)
-                        ipm = open(p + '.ipm', 'rb').read()
+                        ipm = drv.slurp(p + '.ipm')
                         rc = mci_ipm_to_csv.cli_run(in_filename=p + '.ipm', out_filename=p + '.out.csv', in_encoding=enc,
                                                     no1014blocking=not blocked, **kwcfg)
                     if rc == -1:
                         raise RuntimeError('mci_ipm_to_csv reported an error')
-                    outtext = open(p + '.out.csv', newline='', encoding='utf-8' if tid % 10 == 5 else None).read()
+                    outtext = drv.slurp(p + '.out.csv', 'r', newline='', encoding='utf-8' if tid % 10 == 5 else None)
                     for q in (p, p + '.ipm', p + '.out.csv', p + '.json'):
                         if os.path.exists(q):
                             os.unlink(q)
@@ -176,6 +192,9 @@ def _drive(args):
                     mci_ipm_to_csv.mci_ipm_to_csv(io.BytesIO(ipm), o, cfg, in_encoding=enc, no1014blocking=not blocked)
                     outtext = o.getvalue()
             res['rout'] = [prow(x) for x in csv.DictReader(io.StringIO(outtext, newline=''))]
+            if site_extra:
+                out.append(res)          # (judged on its rows only: the IPM-level trace is under the packaged configuration)
+                continue
             ev = [ipmc.iev(1, 'write', m=row) for row in rows] + [ipmc.iev(1, 'fin'), ipmc.iev(1, 'file', b=ipm)]
             # the whole output CSV: every data row must be the configured output columns of the reading of its record
             for x in csv.DictReader(io.StringIO(outtext, newline='')):
@@ -187,12 +206,12 @@ def _drive(args):
                 # the legacy extractor (mideu extract) on the same IPM file: its CSV is judged by the same clause
                 from cardutil.cli import mideu
                 q = os.path.join(wd, 'c20m-%d-%d.ipm' % (os.getpid(), tid))
-                open(q, 'wb').write(ipm)
+                drv.spit(q, ipm)
                 try:
                     with contextlib.redirect_stdout(io.StringIO()):
                         mideu.extract(config=cfg, input=q, sourceformat='ebcdic' if enc == 'cp500' else 'ascii',
                                       no1014blocking=not blocked, csvoutputfile=q + '.csv')
-                    mtext = open(q + '.csv', newline='', encoding='utf8').read()
+                    mtext = drv.slurp(q + '.csv', 'r', newline='', encoding='utf8')
                 finally:
                     for z in (q, q + '.csv'):
                         if os.path.exists(z):
